@@ -1,7 +1,7 @@
 EXPLANATION = ('C03 (narrow): the snapshot copy-on-write mechanism - ScheduleState::ptr_member<T> and ScheduleState::map_member<K,T> (update, get, operator(), copy, get_ptr, has, find, ==) - instantiated from the real header '
   'with small value types and executed with symbolic contents: replacing a member in the copy never changes what the earlier state returns, untouched members stay shared.')
 BOUNDS = 'maps of 2-3 entries with fixed keys, symbolic values'
-OUTSIDE = 'keyword handlers other than the one executed here (WGRUPCON) - each handler\'s fetch-copy-modify-update discipline would need its own run -, iterateScheduleSection, ScheduleDeck\'s DATES/TSTEP partition, look-ahead into later blocks'
+OUTSIDE = 'keyword handlers other than the one executed here (WGRUPCON) - each handler\'s fetch-copy-modify-update discipline would need its own run -, iterateScheduleSection, ScheduleDeck\'s DATES/TSTEP partition'
 ASSUMPTIONS = ['std::unordered_map rehash policy modelled (grow when elements exceed buckets)', 'doubles as reals']
 HT = ['opm/input/eclipse/Schedule/%s.cpp' % n for n in ('Schedule', 'ScheduleState', 'HandlerContext', 'ScheduleTypes', 'RFTConfig', 'RSTConfig', 'Events', 'ScheduleGrid', 'CompletedCells', 'eval_uda', 'SummaryState', 'Tuning',
       'OilVaporizationProperties', 'GasLiftOpt', 'WriteRestartFileEvents', 'VFPProdTable', 'VFPInjTable', 'ScheduleStatic', 'ScheduleDeck', 'ScheduleBlock', 'MessageLimits')] + [
@@ -19,4 +19,6 @@ def jobs(tier):
             dict(name='handler_wefac', src='h_handlers_well.cpp', defs={}, entry='h_wefac', tus=HT, fp='real', loopmax=100000, maxsteps=400000000, timeout=1500, opts=['--ctors'],
                  bounds='two report steps sharing two wells; WEFAC for one well at the later step with a symbolic efficiency factor'),
             dict(name='handler_gefac', src='h_handlers_group.cpp', defs={}, entry='h_gefac', tus=HT, fp='real', loopmax=100000, maxsteps=400000000, timeout=1500, opts=['--ctors'],
-                 bounds='two report steps sharing two groups and two wells; GEFAC for one group at the later step with a symbolic efficiency factor')]
+                 bounds='two report steps sharing two groups and two wells; GEFAC for one group at the later step with a symbolic efficiency factor'),
+            dict(name='future_block_welspecs', src='h_future.cpp', defs={}, entry='h_future_block', tus=HT, fp='real', loopmax=100000, maxsteps=400000000, timeout=1500, opts=['--ctors'],
+                 bounds='a well created from WELSPECS at step 0 (symbolic head cell) on two schedules that differ only in the LATER schedule block (COMPORD for that well or not)')]
